@@ -77,14 +77,81 @@ Definition req_text (fl : string) (parts : list string) : string :=
 Definition dir_or_default (dir : string) : string :=
   if String.eqb dir "" then c16_default_dir else dir.
 
+(* re.sub(r"(^|\s+)#.*$", "", s) on a string without newline: cut at the first '#' that is at
+   the start or preceded by white space, together with that white space *)
+Definition hash_char : ascii := "#"%char.
+Fixpoint drop_comment_go (s : string) (pend : string) (at_start : bool) : string :=
+  match s with
+  | EmptyString => rev_str pend
+  | String c s' =>
+    if Ascii.eqb c hash_char && (at_start || negb (String.eqb pend "")) then EmptyString
+    else if is_space c then drop_comment_go s' (String c pend) false
+    else rev_str pend ++ String c (drop_comment_go s' EmptyString false)
+  end.
+Definition drop_comment (s : string) : string := drop_comment_go s EmptyString true.
+
+(* shlex.split(s): posix mode, whitespace_split, no comment characters.  None = ValueError
+   ("No closing quotation" / "No escaped character") *)
+Definition shlex_ws (c : ascii) : bool :=
+  Ascii.eqb c " "%char || Ascii.eqb c (ascii_of_nat 9) || Ascii.eqb c (ascii_of_nat 13) || Ascii.eqb c (ascii_of_nat 10).
+Definition is_quote (c : ascii) : bool := Ascii.eqb c "'"%char || Ascii.eqb c """"%char.
+Definition bslash : ascii := "\"%char.
+Definition dquote : ascii := """"%char.
+Inductive shst := SW | SA | SQ (q : ascii) | SE (ret : option ascii).
+Definition sh_emit (tok : string) (quoted : bool) (r : option (list string)) : option (list string) :=
+  if negb (String.eqb tok "") || quoted then option_map (cons (rev_str tok)) r else r.
+Fixpoint shlex_go (s : string) (st : shst) (tok : string) (quoted : bool) : option (list string) :=
+  match s with
+  | EmptyString =>
+    match st with
+    | SW => Some []
+    | SA => sh_emit tok quoted (Some [])
+    | SQ _ => None
+    | SE _ => None
+    end
+  | String c s' =>
+    match st with
+    | SW => if shlex_ws c then shlex_go s' SW EmptyString false
+            else if Ascii.eqb c bslash then shlex_go s' (SE None) EmptyString false
+            else if is_quote c then shlex_go s' (SQ c) EmptyString true
+            else shlex_go s' SA (String c EmptyString) false
+    | SA => if shlex_ws c then sh_emit tok quoted (shlex_go s' SW EmptyString false)
+            else if is_quote c then shlex_go s' (SQ c) tok true
+            else if Ascii.eqb c bslash then shlex_go s' (SE None) tok quoted
+            else shlex_go s' SA (String c tok) quoted
+    | SQ q => if Ascii.eqb c q then shlex_go s' SA tok true
+              else if Ascii.eqb c bslash && Ascii.eqb q dquote then shlex_go s' (SE (Some q)) tok true
+              else shlex_go s' (SQ q) (String c tok) true
+    | SE None => shlex_go s' SA (String c tok) quoted
+    | SE (Some q) =>
+      let tok' := if negb (Ascii.eqb c bslash) && negb (Ascii.eqb c q)
+                  then String c (String bslash tok) else String c tok in
+      shlex_go s' (SQ q) tok' true
+    end
+  end.
+Definition shlex_split (s : string) : option (list string) := shlex_go s SW EmptyString false.
+
+(* `--requirement=FILE` is `--requirement FILE` *)
+Definition include_eq (parts : list string) : list string :=
+  match parts with
+  | [] => []
+  | p0 :: tl =>
+    match partition_char "="%char p0 with
+    | (flag, true, value) => if existsb (String.eqb flag) c16_include_flags then flag :: value :: tl else parts
+    | _ => parts
+    end
+  end.
+(* an option line is tokenised with pip's grammar *)
+Definition option_parts (fl : string) : option (list string) :=
+  option_map include_eq (shlex_split (drop_comment fl)).
+
 Section Iter.
   Variable valid : string -> bool.
   Variable rec_file : string -> out -> res.
   Variable dir : string.
 
   (* what happens to a complete logical line `fl`; `k` continues with the following lines *)
-  Definition classify_line (k : out -> res) (fl : string) (acc : out) : res :=
-    let parts := split_ws fl in
+  Definition classify_parts (k : out -> res) (fl : string) (parts : list string) (acc : out) : res :=
     match parts with
     | [] => Err IndexErrorHead acc
     | p0 :: _ =>
@@ -103,6 +170,18 @@ Section Iter.
         let t := req_text fl parts in
         if valid t then k ((fst acc ++ [t])%list, snd acc)
         else Err ValueError ((fst acc ++ [t])%list, snd acc)
+    end.
+
+  Definition classify_line (k : out -> res) (fl : string) (acc : out) : res :=
+    match split_ws fl with
+    | [] => Err IndexErrorHead acc
+    | p0 :: ps =>
+      if startswith p0 c16_option_prefix then
+        match option_parts fl with
+        | None => Err ValueError acc          (* shlex: unbalanced quote / dangling escape *)
+        | Some parts => classify_parts k fl parts acc
+        end
+      else classify_parts k fl (p0 :: ps) acc
     end.
 
   Fixpoint iter_lines (lines : list string) (s : st) (acc : out) : res :=
@@ -191,7 +270,8 @@ Definition t_add (k : nat) (v : string) (t : triple) : triple :=
     end
   end.
 
-Definition bzl_line (line : string) (t : triple) : triple :=
+Definition bzl_line (line0 : string) (t : triple) : triple :=
+  let line := if c16_bzl_strip_line then strip line0 else line0 in
   fold_left (fun acc (rule : list string * nat * nat) =>
     match rule with
     | (pres, cut, tgt) =>
@@ -367,13 +447,13 @@ Definition merged (d : string) : bool := existsb (String.eqb d) c16_cli_merged.
 (* compile_main from the reading of one requirements file to the arguments of build_repo;
    bi / be: the --index-url / --extra-index-url values given on the command line itself
    (already normalised by their `type=`) *)
-Definition cli_front_with (bi be : list string) (r : res) : front_res :=
+Definition cli_front_full (bi be bf : list string) (bno : bool) (r : res) : front_res :=
   match r with
   | Err ValueError _ => FExit 1
   | Err e _ => FRaise e
   | Ok (_, params) =>
     match params with
-    | [] => FOk (mkRepos bi be [] false)
+    | [] => FOk (mkRepos bi be bf bno)
     | _ =>
       match cli_parse params with
       | CliExit c => FExit c
@@ -385,13 +465,14 @@ Definition cli_front_with (bi be : list string) (r : res) : front_res :=
         | [] =>
           FOk (mkRepos (if merged "index_urls" then dedup_append bi (ns_get "index_urls" n) else bi)
                        (if merged "extra_index_urls" then dedup_append be (ns_get "extra_index_urls" n) else be)
-                       (if merged "find_links" then ns_get "find_links" n else [])
-                       (if merged "no_index" then negb (match ns_get "no_index" n with [] => true | _ => false end) else false))
+                       (if merged "find_links" then dedup_append bf (ns_get "find_links" n) else bf)
+                       (if merged "no_index" then bno || negb (match ns_get "no_index" n with [] => true | _ => false end) else bno))
         end
       end
     end
   end.
 
+Definition cli_front_with (bi be : list string) (r : res) : front_res := cli_front_full bi be [] false r.
 Definition cli_front (r : res) : front_res := cli_front_with [] [] r.
 
 (* compile_requirements (Bazel) up to build_repo: the file is read first (errors escape),
